@@ -1,8 +1,12 @@
 package c09
 
 import (
+	"bytes"
+	"context"
 	"fmt"
+	"io"
 	"net/http"
+	"os"
 	"strings"
 
 	"github.com/quay/claircore"
@@ -168,6 +172,78 @@ func miscOps(r *hx.Run, g *gen) {
 					r.Fail("", fmt.Sprintf("detectCompression(%x) = %s, the magic numbers say %s", b, out, want))
 				}
 			}
+		}
+	}
+}
+
+// layerInitOps: claircore.Layer.Init called directly on a file: every media
+// type family, malformed digests, the filesystem type with and without a URI,
+// a second Init on the same Layer; the initialized Layer is read back.
+func layerInitOps(r *hx.Run, g *gen, dir string) {
+	mts := append(append([]string{}, tarMediaTypes...), fsMediaType, "", "application/x-tar", "application/vnd.oci.image.layer.v1.tar+bzip2",
+		"application/vnd.docker.image.rootfs.diff.tar.gzip", "application/vnd.oci.image.layer.v2.tar", "APPLICATION/VND.OCI.IMAGE.LAYER.V1.TAR", "application/vnd.oci.image.layer.v1.tar ")
+	n := g.cfg.N(60, 600)
+	for i := 0; i < n && !r.Stop(); i++ {
+		payload, _, _ := g.payload()
+		digest := digestOf(g.algo(), payload)
+		if g.rnd.Chance(1, 5) {
+			digest, _ = g.malformedDigest(payload)
+		}
+		uri := "http://registry.invalid/x"
+		if g.rnd.Chance(1, 3) {
+			uri = ""
+		}
+		mt := mts[g.rnd.Intn(len(mts))]
+		f, err := os.CreateTemp(dir, "linit")
+		if err != nil {
+			panic(err)
+		}
+		f.Write(payload)
+		desc := claircore.LayerDescription{Digest: digest, URI: uri, MediaType: mt, Headers: map[string][]string{"X-A": {"1"}}}
+		var l claircore.Layer
+		var got []byte
+		out := hx.Guard(func() string {
+			if err := l.Init(context.Background(), &desc, f); err != nil {
+				return "err"
+			}
+			defer l.Close()
+			if err := l.Init(context.Background(), &desc, f); err == nil {
+				return "second-init-accepted"
+			}
+			if l.URI != uri || l.Hash.String() != strings.ToLower(digest) || len(l.Headers) != 1 {
+				return "fields-not-copied"
+			}
+			rd, err := l.Reader()
+			if err != nil {
+				if _, e2 := l.FS(); e2 == nil {
+					return "d"
+				}
+				return "noview"
+			}
+			got, err = io.ReadAll(rd)
+			if err != nil {
+				return "readerr"
+			}
+			return viewOf(got)
+		})
+		os.Remove(f.Name())
+		f.Close()
+		tar := tarAccepted(payload)
+		r.Op(fmt.Sprintf("linit %s %s %s %s %s", hx.Hex([]byte(digest)), b01(uri == ""), hx.Hex([]byte(mt)), hx.Hex(payload), b01(tar)), out, true)
+		r.Count("linit:" + out[:1])
+		// the statement, directly
+		_, _, okd := parseDigestSpec(digest)
+		switch {
+		case strings.HasPrefix(out, "t:"):
+			if !okd || !isTarMediaType(mt) || !tar || !bytes.Equal(got, payload) {
+				r.Fail("", fmt.Sprintf("Layer.Init(digest=%q mediatype=%q uri=%q) over %d bytes gives %s", digest, mt, uri, len(payload), out))
+			}
+		case out == "d":
+			if !okd || mt != fsMediaType || uri == "" {
+				r.Fail("", fmt.Sprintf("Layer.Init(digest=%q mediatype=%q uri=%q) gives a filesystem layer", digest, mt, uri))
+			}
+		case out != "err":
+			r.Fail("", fmt.Sprintf("Layer.Init(digest=%q mediatype=%q uri=%q): %s", digest, mt, uri, out))
 		}
 	}
 }
